@@ -428,6 +428,14 @@ func (v *verifier) processSignature(ctx context.Context, sigBlob []byte, envelop
 		return err
 	}
 
+	// a critical extended attribute whose key is not a string can neither be
+	// processed by notation nor be handed to a verification plugin
+	for _, attr := range outcome.EnvelopeContent.SignerInfo.SignedAttributes.ExtendedAttributes {
+		if _, ok := attr.Key.(string); !ok && attr.Critical {
+			return notation.ErrorVerificationInconclusive{Msg: fmt.Sprintf("extended critical attribute %v has a non-string key and cannot be processed", attr.Key)}
+		}
+	}
+
 	var installedPlugin pluginframework.VerifyPlugin
 	if verificationPluginName != "" {
 		logger.Debugf("Finding verification plugin %q", verificationPluginName)
